@@ -17,6 +17,11 @@ def rdBE32 (buf : Int → Int) (i : Int) : Int :=
 def rdNat32 (buf : Int → Int) (i : Int) : Int :=
   rdU8 buf (i + 3) * 16777216 + rdU8 buf (i + 2) * 65536 + rdU8 buf (i + 1) * 256 + rdU8 buf i
 
+/-- `htonl (x)` on the (little-endian, probed) host; generated kernels only ever store it through the cursor,
+    where the event carries `x` itself -/
+def bswap32 (x : Int) : Int :=
+  (x % 256) * 16777216 + (x / 256 % 256) * 65536 + (x / 65536 % 256) * 256 + (x / 16777216 % 256)
+
 theorem rdU8_range (buf : Int → Int) (i : Int) : 0 ≤ rdU8 buf i ∧ rdU8 buf i ≤ 255 := by
   unfold rdU8; omega
 
